@@ -8,6 +8,10 @@ S2C: every operation sequence up to length L enumerated by TLC (path enumeration
      TLC simulation walks are replayed on the real Condition / Event on the virtual loop; the
      projection (every wait future's state, order of True wake-ups / is_set() and which finished
      wait futures are still reachable, by weak reference) is compared after every step.
+     Every behaviour is replayed under four placements of event-loop iterations: settled after every
+     call; all calls of a stretch inside one iteration (no callback runs between them) with the calls
+     after an advance made from a callback in the iteration in which the timers fire; the same one
+     iteration later; and a pseudo-random placement two iterations later (see harness.sync_driver._Fused).
 C2S: seeded random runs recorded from the real objects (many more waiters, long histories; one
      profile is timeout-heavy so that Condition's lazy clean-up of >100 timed-out waiters happens
      with live waiters queued) are validated by TLC against Trace_CondEvent with every invariant
@@ -199,16 +203,17 @@ def run(ctx):
     t0 = _timed(ctx, "mc", t0)
     # 2. spec -> code: all paths up to L over three alphabets
     rule = []
+    fams = []
     for name, ov, lq, lt in GEN_FAMILIES:
         L = ctx.pick(lq, lt)
         if not L:
             continue
         o = dict(ov)
         o["L"] = L
-        sync_paths.stream_replay(ctx, "Gen_CondEvent", "Gen_CondEvent.cfg", o, replayer, label="s2c-" + name,
-                                 nontrivial=lambda e, p: len(p) >= 2 and any(s["act"] != "advance" for s in p))
-        rule.append("%s: all sequences <= %d over Timeouts=%s MaxAdvance=%s notify(0..%s)" % (
-            name, L, ov["Timeouts"], ov["MaxAdvance"], ov["MaxNotify"]))
+        fams.append(("s2c-" + name, o))
+        rule.append("%s: all sequences <= %d over %s" % (name, L, ", ".join("%s=%s" % kv for kv in sorted(ov.items()))))
+    sync_paths.stream_replay_many(ctx, "Gen_CondEvent", "Gen_CondEvent.cfg", fams, replayer, parallel=ctx.pick(3, 2),
+                                  nontrivial=lambda e, p: len(p) >= 2 and any(s["act"] != "advance" for s in p))
     ctx.cov["exhaustive"] = True
     t0 = _timed(ctx, "s2c-enum", t0)
     # long seeded walks through larger constants
